@@ -163,6 +163,23 @@ E6Progs == << Prog(<<Def("t", E6Obj(ErrN(S("b")))), Def("f", Fn(<<Param("x")>>, 
                      Blk(<<Log(Call(Var("f"), <<Arg(Var("t"))>>))>>, << <<I(1), Log(I(7))>>, <<I(2), Log(I(8))>> >>, << >>)>>) >>
 E6Params == { <<"e6", k>> : k \in Idx(E6Progs) }
 
+\* <<"e7", k>>: the error VALUE is an object with a _str_ member (one that fails, one that writes to the log):
+\* `error v` raises v itself - nothing renders it on the way to the handler, so no program code runs between
+\* the failing statement and the clause that is selected, and the clause is selected by v, not by what
+\* rendering v would raise
+E7Progs == << Prog(<<Def("t", E6Obj(ErrN(S("b")))),
+                     Blk(<<Log(I(1)), ErrN(Var("t")), Log(I(2))>>, << <<S("b"), Log(I(7))>>, <<Var("t"), Log(I(8))>> >>, <<Log(I(6))>>)>>),
+              Prog(<<Def("t", E6Obj(Log(S("s")))),
+                     Blk(<<ErrN(Var("t")), Log(I(2))>>, << <<Var("t"), Log(I(8))>> >>, << >>)>>),
+              Prog(<<Def("t", E6Obj(Log(S("s")))),
+                     Def("f", Fn(<< >>, Blk(<<Log(I(1)), ErrN(Var("t"))>>, << <<S("o"), Log(I(0))>> >>, <<Log(I(6))>>))),
+                     Blk(<<Call(Var("f"), << >>)>>, << <<S("s"), Log(I(7))>>, <<All, Log(I(9))>> >>, << >>)>>),
+              Prog(<<Def("t", E6Obj(Bin("/", I(1), I(0)))),
+                     Blk(<<Blk(<<ErrN(Var("t"))>>, << <<Lit(ERRORV), Log(I(7))>> >>, <<Log(I(5))>>)>>,
+                         << <<Lit(ERRORV), Log(I(8))>>, <<Var("t"), Log(I(9))>> >>, <<Log(I(6))>>)>>),
+              Prog(<<Def("t", E6Obj(Log(S("s")))), Log(I(1)), ErrN(Var("t")), Log(I(2))>>) >>
+E7Params == { <<"e7", k>> : k \in Idx(E7Progs) }
+
 \* <<"e5", form, e, a1, a2>>: the SAME block runs twice with a clause value that is a variable (a parameter
 \* in form 1, the loop variable in form 2, a reassigned variable in form 3): the clause value is evaluated
 \* afresh for every error that reaches the block
@@ -182,9 +199,9 @@ E5Build(p) ==
 
 \* (operators with a dummy argument: TLC evaluates every zero-arity definition when it starts, and these sets are big;
 \*  only the MC_* module of the configuration that needs one evaluates it)
-ErrQuick(u) == E5Params \cup E6Params \cup E1Params({4, 5, 6, 7, 8}, SmallCatch \cup {4}, SmallFin) \cup E4Params({1}) \cup E1Params({1}, Idx(Catches), Idx(Fins)) \cup E1Params({2}, SmallCatch, SmallFin)
+ErrQuick(u) == E5Params \cup E6Params \cup E7Params \cup E1Params({4, 5, 6, 7, 8}, SmallCatch \cup {4}, SmallFin) \cup E4Params({1}) \cup E1Params({1}, Idx(Catches), Idx(Fins)) \cup E1Params({2}, SmallCatch, SmallFin)
             \cup E3Params \cup { p \in E2Params({1}) : p[8] \in {1, 2} /\ p[10] = 1 }
-ErrThorough(u) == E5Params \cup E6Params \cup E1Params({4, 5, 6, 7, 8}, Idx(Catches), Idx(Fins)) \cup E2Params({4, 5, 6}) \cup E4Params({1, 2, 3}) \cup E1Params({1, 2, 3}, Idx(Catches), Idx(Fins)) \cup E3Params \cup E2Params({1, 2, 3})
+ErrThorough(u) == E5Params \cup E6Params \cup E7Params \cup E1Params({4, 5, 6, 7, 8}, Idx(Catches), Idx(Fins)) \cup E2Params({4, 5, 6}) \cup E4Params({1, 2, 3}) \cup E1Params({1, 2, 3}, Idx(Catches), Idx(Fins)) \cup E3Params \cup E2Params({1, 2, 3})
 
 (* ---- C04: loops, exits, ladders, comprehensions ---- *)
 L123 == ListN(<<I(1), I(2), I(3)>>)
@@ -536,7 +553,7 @@ S7Params == { <<"s7", k>> : k \in Idx(S7Progs) }
 ScopeParams(u) == S7Params \cup S6Params \cup S1Params \cup S2Params \cup S3Params \cup S4Params \cup S5Params \cup A1Params \cup A2Params \cup A3Params
 
 Build(p) ==
-  CASE p[1] = "e6" -> E6Progs[p[2]] [] p[1] = "e5" -> E5Build(p) [] p[1] = "e4" -> E4Build(p) [] p[1] = "e1" -> E1Build(p) [] p[1] = "e2" -> E2Build(p) [] p[1] = "e3" -> E3Build(p)
+  CASE p[1] = "e6" -> E6Progs[p[2]] [] p[1] = "e7" -> E7Progs[p[2]] [] p[1] = "e5" -> E5Build(p) [] p[1] = "e4" -> E4Build(p) [] p[1] = "e1" -> E1Build(p) [] p[1] = "e2" -> E2Build(p) [] p[1] = "e3" -> E3Build(p)
     [] p[1] = "l1" -> L1Build(p) [] p[1] = "l0" -> L0Build(p) [] p[1] = "l2" -> L2Build(p)
     [] p[1] = "l3" -> L3Progs[p[2]] [] p[1] = "w1" -> W1Build(p) [] p[1] = "if" -> IfBuild(p)
     [] p[1] = "c2" -> C2Build(p) [] p[1] = "l4" -> L4Build(p) [] p[1] = "l5" -> L5Progs[p[2]]
